@@ -11,8 +11,14 @@ def encOid : Oid → String
   | .ext n => toString n
   | .int _ => "~"
 
+/-- labels drawn by `makeLabel()` ("auto…" on both sides) are random: only their presence is compared -/
+def canonLabel (k : Py.Str) (v : Option Py.Str) : Option Py.Str :=
+  match v with
+  | some x => if k = labelKey ∧ x.take 4 = ['a', 'u', 't', 'o'] ∧ 4 < x.length then some ['a', 'u', 't', 'o'] else v
+  | none => v
+
 def encTags (t : List (Py.Str × Option Py.Str)) : String :=
-  if t.isEmpty then "-" else "+".intercalate (t.map fun (k, v) => enc k ++ "=" ++ encOpt v)
+  if t.isEmpty then "-" else "+".intercalate (t.map fun (k, v) => enc k ++ "=" ++ encOpt (canonLabel k v))
 
 def decTags (f : String) : Option (List (Py.Str × Option Py.Str)) :=
   if f = "-" then some [] else
@@ -75,7 +81,7 @@ def decBit (f : String) : Option Bool :=
 def encState (s : Irc) : String :=
   toString s.now ++ "|" ++ toString s.lastTake ++ "|" ++ toString s.queue.lastJoin ++ "|" ++
     toString s.lastPing ++ "|" ++ bit s.zombie ++ bit s.afterConnect ++ bit s.outstandingPing ++
-    bit s.echoAcked ++ "\t" ++ encMsgs s.fast ++ "\t" ++ encMsgs s.queue.high ++ "\t" ++
+    bit s.echoAcked ++ bit s.labelAcked ++ "\t" ++ encMsgs s.fast ++ "\t" ++ encMsgs s.queue.high ++ "\t" ++
     encMsgs s.queue.normal ++ "\t" ++ encMsgs s.queue.low
 
 /-- what the harness can observe of one operation:
@@ -162,6 +168,9 @@ def stepLine (s : Irc) : List String → Option (Irc × List Ev)
   | ["capecho", b] => do
     let b' ← decBit b
     pure (step s (.capEcho b'))
+  | ["caplabel", b] => do
+    let b' ← decBit b
+    pure (step s (.capLabel b'))
   | _ => none
 
 def handler : Driver.Handler :=
